@@ -105,6 +105,53 @@ static void one_buffer(int ii, uint8_t *p, int len, const char *place)
 	}
 }
 
+/* cancelling content: two non-zero words that annihilate each other under an arithmetic or exclusive-or combination (a kernel
+ * that accumulates loaded words with add / sub / xor instead of or reports zero). For word widths W = 1, 2, 4, 8 bytes and
+ * distances d in {W, 2W, 16, 32, 64, 128}: word A at every offset i holds one non-zero byte x (lowest or highest byte of the word),
+ * word B at i+d holds A itself (xor / sub cancel) or the W-byte two's complement of A (add cancels); everything else is zero. */
+static void cancel_family(int ii, uint8_t *p, int len, const char *place)
+{
+	char key[200];
+	zd_fn f = impl[ii].f;
+	static const int Ws[] = { 1, 2, 4, 8 };
+	static const uint8_t xs[] = { 0x01, 0x80, 0x40 };
+	memset(p, 0, len);
+	for (int wi = 0; wi < 4; wi++) {
+		int W = Ws[wi];
+		const int ds[6] = { W, 2 * W, 16, 32, 64, 128 };
+		for (int di = 0; di < 6; di++) {
+			int d = ds[di];
+			if (di >= 2 && d <= 2 * W)
+				continue;
+			for (int i = 0; i + d + W <= len; i++)
+				for (int hi = 0; hi < (W > 1 ? 2 : 1); hi++)
+					for (int xi = 0; xi < 3; xi++)
+						for (int neg = 0; neg < 2; neg++) {
+							uint64_t a = (uint64_t)xs[xi] << (hi ? 8 * (W - 1) : 0), b = neg ? (uint64_t)0 - a : a;
+							memcpy(p + i, &a, W);
+							memcpy(p + i + d, &b, W);
+							int r;
+							v_fault_armed = 1;
+							if (sigsetjmp(v_fault_jmp, 1) == 0)
+								r = (int)PCALL(f, p, len);
+							else {
+								snprintf(key, sizeof key, "%s fault cancelling-pair len=%d %s", impl[ii].name, len, place);
+								v_violation(key, "fault at %s addr=%p (%s)", v_sym(v_fault_rip), (void *)v_fault_addr, v_fault_write ? "write" : "read");
+								return;
+							}
+							v_fault_armed = 0;
+							v_eval();
+							if (r == 0) {
+								snprintf(key, sizeof key, "%s missed cancelling-pair len=%d %s", impl[ii].name, len, place);
+								v_violation(key, "%d-byte word %0*llx at offset %d and %s at offset %d (rest zero) reported as all-zero", W, 2 * W, (unsigned long long)a, i, neg ? "its two's complement" : "the same word", i + d);
+							}
+							memset(p + i, 0, W);
+							memset(p + i + d, 0, W);
+						}
+		}
+	}
+}
+
 /* regions larger than 4 GiB (len is a size_t): block counters and offsets kept in 32-bit registers would wrap.
  * The region lives in a MAP_NORESERVE anonymous mapping that is never written except for the single probe byte,
  * so it is backed by the shared zero page and costs no memory. */
@@ -189,6 +236,8 @@ int main(int argc, char **argv)
 			/* placement E: last byte directly before an inaccessible page (start alignment = -len mod 64) */
 			uint8_t *p = g_alloc(len, G_END);
 			one_buffer(ii, p, len, "E");
+			if (len <= (v_thorough ? 600 : 300))
+				cancel_family(ii, p, len, "E");
 			g_reset();
 			/* placement S + alignment sweep: first byte `off` bytes after an inaccessible page */
 			int full = len <= 256;
@@ -199,6 +248,8 @@ int main(int argc, char **argv)
 				snprintf(pl, sizeof pl, "S+%d", off);
 				p = g_alloc_off(len, off);
 				one_buffer(ii, p, len, pl);
+				if (len <= (v_thorough ? 600 : 300) && (off == 0 || off == 1 || off == 8))
+					cancel_family(ii, p, len, pl);
 				g_reset();
 			}
 			v_nontrivial(v_mix(ii, len));
@@ -208,6 +259,7 @@ out:
 	if (v_shard == 0) {
 		v_sample("len=17 placement E: region all zero -> 0; byte 0x80 at offset 16 -> non-zero; canary neighbours non-zero");
 		v_note("dense families: zeros + non-zero suffix, non-zero prefix + zeros, sliding 64- and 128-byte non-zero windows, every start, fill ff/01/80 (all byte lanes of a vector block non-zero at once)");
+		v_note("cancelling pairs: words of 1/2/4/8 bytes with one non-zero byte, repeated or negated at distance W, 2W, 16, 32, 64, 128, at every offset (placements E, S+0, S+1, S+8)");
 		v_note("placements: E (ends at PROT_NONE page), S+off (starts off bytes after a PROT_NONE page), off=0..63 for len<=256 else {0,1,7,8,15,16,31,32,63}");
 	}
 	return v_finish();
